@@ -66,6 +66,7 @@ class Spec:
         self.cur = None
         self.axioms_used = {}
         self.inline_kernel = False
+        self.inline_assembly = False
         self.summarised = {r['key'] for r in facts.roots if r['def'] == 'format::Formatter::parse'}
         # trace partitioning at loop heads: one invariant per combination of these small flag values
         # (12-hour/24-hour/meridian bookkeeping of the parser); a precision hint, sound whatever it lists
@@ -204,7 +205,60 @@ class Spec:
         body = interp.facts.bodies.get(caller)
         interp.oblige('P-pre', body['def'] if body else caller, bbi, f"precondition of {key}", sp, ok, st, detail)
 
+    # ---- the assembly step of the parser: T::try_from(NaiveDateTime), analysed out of line under a precondition
+    NDT_PRE = {'year': (-999_999_999, 999_999_999), 'month': (0, 999_999_999), 'day': (0, 999_999_999),
+               'hour': (0, 999_999_999), 'minute': (0, 999_999_999), 'sec': (0, 999_999_999), 'usec': (0, 1_000_000)}
+
+    def internal_roots(self):
+        return [k for k in self.facts.bodies if self.is_assembly(k)]
+
+    def is_assembly(self, key):
+        return key.startswith('<') and key.endswith(' as std::convert::TryFrom<format::NaiveDateTime>>::try_from')
+
+    def ndt_fields(self, v):
+        t = self.facts.types[v.ty]
+        return {f['name']: i for i, f in enumerate(t['variants'][0]['fields'])}
+
+    def internal_args(self, interp, st, key):
+        body = self.facts.bodies[key]
+        ty = body['locals'][1]['ty']
+        v = interp.top(st, ty, 'dt', assume_inv=False)
+        idx = self.ndt_fields(v)
+        fs = list(v.variants[0])
+        for nm, (lo, hi) in self.NDT_PRE.items():
+            f = fs[idx[nm]]
+            fs[idx[nm]] = interp.fresh_int(st, f.ty, f"dt.{nm}", lo, hi)
+        return [VAdt(v.ty, {0: tuple(fs)})]
+
     def call_override(self, interp, st, key, args):
+        if self.is_assembly(key) and st.stack and not self.inline_assembly:
+            v = args[0]
+            ok = isinstance(v, VAdt)
+            detail = ''
+            if ok:
+                idx = self.ndt_fields(v)
+                fs = v.variants[0]
+                for nm, (lo, hi) in self.NDT_PRE.items():
+                    f = fs[idx[nm]]
+                    if not isinstance(f, VInt):
+                        ok, detail = False, f"{nm} is {f!r}"
+                        break
+                    a, b = st.num.rng(f.form)
+                    if a < lo or b > hi:
+                        ok, detail = False, f"dt.{nm} = {f.form!r} in [{a}, {b}] must be within [{lo}, {hi}]"
+                        break
+            self.pre_ob(interp, st, key, ok, detail)
+            # remember which fields of the record depend on the clock (C18)
+            if isinstance(v, VAdt):
+                idx = self.ndt_fields(v)
+                tainted = []
+                for nm in ('year', 'month', 'day', 'hour', 'minute', 'sec', 'usec'):
+                    f = v.variants[0][idx[nm]]
+                    if isinstance(f, VInt) and any(SYMTAB.syms[s].taint for s, _ in f.form.terms):
+                        tainted.append(nm)
+                interp.events.append(('assembly', key, tuple(tainted), st.notes.get('clock_reads', 0), dict(st.notes)))
+            body = self.facts.bodies[key]
+            return [(st, interp.top(st, body['locals'][0]['ty'], 'assembled'))]
         if key in self.summarised and st.stack:
             # this instance is itself analysed as a root under weaker assumptions (arbitrary Formatter
             # satisfying the container invariant, arbitrary input): use its contract at call sites
@@ -330,11 +384,17 @@ class Spec:
         return info
 
     # ------------------------------------------------------------------ root arguments
-    def merge_limit(self, key):
+    def merge_limit(self, key, st=None):
         """trace-partitioning bound per callee: the text-processing helpers of the formatter/parser return many
         equivalent exit states and are merged beyond 8; arithmetic code is never merged (its exits carry the
         case splits the contracts are stated on)"""
-        return 8 if (key.startswith('format::') or key == 'common::the_month_day_of_days') else 10 ** 9
+        if key.startswith('format::') or key == 'common::the_month_day_of_days':
+            return 8
+        if key == 'date::Date::day_of_week' and st is not None and st.stack:
+            root = st.stack[0][1]
+            if root.startswith('format::') or 'serialize' in root or '::parse::' in root or '::format::' in root or 'LazyFormat' in root:
+                return 1      # text code only prints / compares the weekday: no need for the per-weekday case split
+        return 10 ** 9
 
     def root_variants(self, key):
         """case split of a heavy root into independently analysed variants (covering all cases)"""
